@@ -207,7 +207,9 @@ def _child_session(rec):
         mol = Molecule(Constants(), sp, x.clone(), species, charges=torch.tensor(ch), mult=torch.tensor(mult))
         mol.verbose = False
         es = Electronic_Structure(sp)
-        SL.MAX_ITER = cap
+        # the unrolled-backward variant keeps the autograd graph of every iteration: bound its length (ordinary solves of the
+        # pool need < 100 iterations; a solve that reaches the cap is flagged and not compared)
+        SL.MAX_ITER = min(cap, 300) if cfgd.get("backward") == 2 else cap
         clock["n"] = 0
         clock["where"] = None
         if traced:
@@ -418,7 +420,7 @@ def gen_session(rng, closed_only=False, gap_safe=False):
     return {"batch": batch, "method": method, "rotate": rng.randrange(1 << 30), "seed": rng.randrange(1 << 40), "ops": ops}
 
 
-def run_session(rec, root, timeout=1500):
+def run_session(rec, root, timeout=600):
     st, payload = core.run_in_child(_child_session, (rec,), timeout=timeout, stdout_path=os.path.join(root, "out.txt"))
     if st != 0 or not payload or "ok" not in payload:
         return None, payload
